@@ -196,6 +196,40 @@ def clock_worker(item):
     return dict(digest=(hashlib.sha1(samples.tobytes()).hexdigest(), float(fs.logZ).hex(), int(res["model"].likelihood_evaluations)), checkpoints=n_ckpt[0])
 
 
+def loglevel_worker(item):
+    """item = (kind, seed, level): the same run with nessai's logger at another level - process-global
+    state that must not reach the random stream."""
+    import hashlib
+    import logging
+    import shutil
+
+    kind, seed, level = item
+    lg = logging.getLogger("nessai")
+    old_level, old_prop, old_handlers = lg.level, lg.propagate, list(lg.handlers)
+    lg.handlers = [logging.NullHandler()]
+    lg.propagate = False
+    lg.setLevel(level)
+    old_disable = logging.root.manager.disable
+    logging.disable(logging.NOTSET)  # the harness silences logging in its workers: undo it here
+    base = {"nlive": 10, "poolsize": 10, "maximum_uninformed": 10} if kind == "std" else {"max_iteration": 2}
+    cfg = {"kind": kind, "model": "G2", "seed": seed, "kwargs": dict(base), "resume": "none"}
+    try:
+        runner = runs.run_standard_case if kind == "std" else runs.run_ins_case
+        res = runner(cfg, want=(), keep_output=True)
+    finally:
+        logging.disable(old_disable)
+        lg.setLevel(old_level)
+        lg.propagate = old_prop
+        lg.handlers = old_handlers
+    if res.get("output"):
+        shutil.rmtree(res["output"], ignore_errors=True)
+    fs = res.get("fs")
+    if fs is None:
+        return dict(error=str(res["errs"][:1]))
+    samples = np.asarray(fs.nested_samples)
+    return dict(digest=(hashlib.sha1(samples.tobytes()).hexdigest(), float(fs.logZ).hex(), int(res["model"].likelihood_evaluations)))
+
+
 def run(ctx):
     cfgs = lattice(ctx.seed, ctx.quick)
     for i, c in enumerate(cfgs):
@@ -305,9 +339,26 @@ def run(ctx):
                 which = [n for n, a, b in zip(("nested samples", "logZ", "evaluation count"), r["digest"], ref) if a != b]
                 ctx.violation(f"result-depends-on-the-wall-clock:{kind}", f"{which} differ between a frozen clock ({rs[0][1]['checkpoints']} checkpoints) and {sp} s per evaluated point ({r['checkpoints']} time-triggered checkpoints)", {"clock": [kind, ctx.seed, sp]})
                 break
+    # process-global settings that must not reach the random stream: the log level
+    import logging
+
+    by_kind = {}
+    for (kind, seed, level), res in ctx.pmap(loglevel_worker, [(k, ctx.seed, lv) for k in ("std", "ins") for lv in (logging.WARNING, logging.INFO, logging.DEBUG)]):
+        ctx.count("evaluations")
+        if "error" in res:
+            ctx.violation(f"log-level-run-failed:{kind}", f"{res['error']} (level {level})", {"loglevel": [kind, seed, level]})
+            continue
+        by_kind.setdefault(kind, []).append((level, res["digest"]))
+    for kind, rs in by_kind.items():
+        ref = max(rs)[1]  # WARNING
+        for level, dg in rs:
+            if dg != ref:
+                which = [n for n, a, b in zip(("nested samples", "logZ", "evaluation count"), dg, ref) if a != b]
+                ctx.violation(f"result-depends-on-the-log-level:{kind}", f"{which} differ between log level WARNING and {logging.getLevelName(level)}", {"loglevel": [kind, ctx.seed, level]})
+                break
     ctx.set("seed_classes", {str(k): len(v) for k, v in classes.items()})
     ctx.set("pool_map_calls", {k: v["calls"] for k, v in base.items()})
-    ctx.set("rule", "lattice {std, INS} x 2 seeds (+ seed 0) x parallelisation settings (n_pool 1..4, user-supplied fork pool, chunk sizes 1/7/larger than any batch, parallel prior) run in separate interpreter processes (two PYTHONHASHSEED values) and twice inside one process; controllable in-process pool with every completion order (<= 5 per call) at each map call (deviation 1) and at pairs of calls (deviation 2, thorough); virtual-clock schedules: the time-triggered-checkpoint configuration of each sampler under clock speeds 0 .. 1e6 s per evaluated point (the wall clock may only decide when checkpoints are written). Distinct/non-trivial: distinct configurations + distinct schedules")
+    ctx.set("rule", "lattice {std, INS} x 2 seeds (+ seed 0) x parallelisation settings (n_pool 1..4, user-supplied fork pool, chunk sizes 1/7/larger than any batch, parallel prior) run in separate interpreter processes (two PYTHONHASHSEED values) and twice inside one process; controllable in-process pool with every completion order (<= 5 per call) at each map call (deviation 1) and at pairs of calls (deviation 2, thorough); virtual-clock schedules: the time-triggered-checkpoint configuration of each sampler under clock speeds 0 .. 1e6 s per evaluated point (the wall clock may only decide when checkpoints are written); the same run under log levels WARNING / INFO / DEBUG. Distinct/non-trivial: distinct configurations + distinct schedules")
     ctx.set("exhaustive", True)
     ctx.sample({"config": cfgs[3], "digest": "sha1(nested samples), logZ.hex(), sha1(log posterior weights), evaluation count"})
     ctx.assume(
@@ -317,6 +368,14 @@ def run(ctx):
 
 
 def replay(ctx, data):
+    if data.get("loglevel"):
+        import logging
+
+        kind, seed, level = data["loglevel"]
+        a, b = loglevel_worker((kind, seed, logging.WARNING)), loglevel_worker((kind, seed, level))
+        if "error" in a or "error" in b:
+            return [f"run failed: {a.get('error') or b.get('error')}"]
+        return [] if a["digest"] == b["digest"] else [f"results differ between log levels WARNING and {level}"]
     if data.get("clock"):
         kind, seed, speed = data["clock"]
         a, b = clock_worker((kind, seed, 0)), clock_worker((kind, seed, speed))
